@@ -139,10 +139,12 @@ def classify(case, p):
         return "rejected", X["asm"]
     if X.get("dbgsame", "1").split(" ")[0] != "1":
         return "tie", "debug and plain assembly differ: " + X.get("dbgsame", "")
+    tie = ""
     for k in sorted(set(list(X.keys()) + list(M.keys()))):
         if k in TEXT_KEYS or k.startswith("sec.") or k.startswith("prg."):
             if X.get(k) != M.get(k):
-                return "tie", "%s: impl=%r model=%r" % (k, X.get(k), M.get(k))
+                tie = "%s: impl=%r model=%r" % (k, X.get(k), M.get(k))
+                break
     temps = M.get("temps", "")
     if any(t.endswith(":0") for t in temps.split()):
         return "modelself", "temp_fresh evaluated false on " + temps
@@ -153,20 +155,30 @@ def classify(case, p):
     c04 = ("rearm=0 stale=0" not in hs) and hs != ""
     if hyp and ms == "ok" and mv != ev:
         return "modelself", "Net.run=%s eval=%s" % (mv, ev)
-    if xs == ms and (xs != "ok" or xv == mv):
-        if not hyp:
-            return "outside", flags
-        if xs == "ok":
-            return "ok", ""
-        return "deadlock", "model and simulator both dead-lock"
-    # behaviour disagreement
-    if c04:
-        return "rearm", "impl=%s %s model=%s %s [%s]" % (xs, xv, ms, mv, hs)
-    if hyp and xs == "ok" and ms == "ok":
-        return "property", "impl=%s eval=%s" % (xv, ev)
-    if hyp and ms == "ok":
-        return "property", "impl status=%s (%s) model ok eval=%s" % (xs, xv, ev)
-    return "tie", "out: impl=%s %s model=%s %s [%s]" % (xs, xv, ms, mv, hs)
+    if hyp:
+        # the property itself, evaluated on the implementation: outputs of the real machine vs eval(G)
+        if xs == "ok" and xv == ev:
+            cls, detail = "ok", ""
+            if ms != "ok":
+                tie = tie or "model predicts %s, the real machine delivers eval" % ms
+        elif c04:
+            cls, detail = "rearm", "impl=%s %s eval=%s model=%s [%s]" % (xs, xv, ev, ms, hs)
+        elif xs == "deadlock" and ms == "deadlock" and not tie:
+            cls, detail = "deadlock", "model and simulator both dead-lock"
+        else:
+            cls, detail = "property", "impl=%s %s eval=%s (model run: %s)" % (xs, xv, ev, ms)
+    else:
+        if xs == ms and (xs != "ok" or xv == mv):
+            cls, detail = "outside", flags
+        elif c04:
+            cls, detail = "rearm", "impl=%s %s model=%s %s [%s]" % (xs, xv, ms, mv, hs)
+        else:
+            cls, detail = "tie", "out: impl=%s %s model=%s %s [%s]" % (xs, xv, ms, mv, hs)
+    if tie:
+        if cls in ("ok", "outside", "deadlock", "tie"):
+            return "tie", tie
+        return cls, detail + " ; text: " + tie
+    return cls, detail
 
 
 def n_cps(p):
